@@ -184,3 +184,5 @@ func vClones() int        { return 0 }
 func vSchedFixed(on bool)        {}
 func vUFTable(name string, table []uint32) {}
 func vFSYield(on bool)            {}
+func vRecordIO(on bool) {}
+func vIOLog() []uint64  { return nil }
